@@ -15,6 +15,14 @@ type H struct {
 	Keys  int
 	M     *sync2.Map[int, int]
 	Model map[int]int
+	Vals  []int // the values stored (default 1, 2)
+}
+
+// NewVals is New with another pair of values (e.g. 0 and 2: the zero value is data like any other).
+func NewVals(keys int, vals ...int) *H {
+	h := New(keys)
+	h.Vals = vals
+	return h
 }
 
 func New(keys int) *H { return &H{Keys: keys, M: new(sync2.Map[int, int]), Model: map[int]int{}} }
@@ -23,7 +31,11 @@ func (x *H) Ops() []seqmc.Op {
 	var ops []seqmc.Op
 	for k := 0; k < x.Keys; k++ {
 		ops = append(ops, seqmc.Op{Name: "Load", A: k}, seqmc.Op{Name: "LoadAndDelete", A: k}, seqmc.Op{Name: "Delete", A: k})
-		for v := 1; v <= 2; v++ {
+		vals := x.Vals
+		if vals == nil {
+			vals = []int{1, 2}
+		}
+		for _, v := range vals {
 			ops = append(ops, seqmc.Op{Name: "Store", A: k, B: v}, seqmc.Op{Name: "LoadOrStore", A: k, B: v})
 		}
 	}
